@@ -35,7 +35,7 @@ pub fn print_child(threads: usize, calls: usize, stream: &str) {
                 let mut kept_err = anstream::stderr();
                 for c in 1..=calls {
                     let pad = "x".repeat(r.below(40));
-                    let kind = (c + t) % 13;
+                    let kind = (c + t) % 14;
                     // calls that end with a newline of their own (println!, a "\n" in the format string, writeln!, a record ending in
                     // "\n") announce 4 fragments: the newline right after the third is the fourth and belongs to the same call
                     let n = if matches!(kind, 0 | 1 | 2 | 4) { 4 } else { 3 };
@@ -103,6 +103,21 @@ pub fn print_child(threads: usize, calls: usize, stream: &str) {
                             let bell: String = pad.chars().flat_map(|ch| [ch, '\x07']).take(24).collect();
                             let rec = format!("{}\x07{}\x08{}\n", frag(t, c, 1, 3, &bell), frag(t, c, 2, 3, "m\x08i\x00d"), frag(t, c, 3, 3, "e\x07n\x07d"));
                             if stream == "stdout" { anstream::stdout().write_all(rec.as_bytes()).unwrap() } else { anstream::stderr().write_all(rec.as_bytes()).unwrap() }
+                        }
+                        13 => {
+                            // the record printed through an explicit lock handle, held over three separate calls: everything printed
+                            // under the handle is one critical section, and the other threads' single calls stay whole around it
+                            if stream == "stdout" {
+                                let mut lk = anstream::stdout().lock();
+                                write!(lk, "{}", a).unwrap();
+                                write!(lk, "{}", b).unwrap();
+                                lk.write_all(d.as_bytes()).unwrap();
+                            } else {
+                                let mut lk = anstream::stderr().lock();
+                                write!(lk, "{}", a).unwrap();
+                                write!(lk, "{}", b).unwrap();
+                                lk.write_all(d.as_bytes()).unwrap();
+                            }
                         }
                         7 => {
                             // a stream built over a BORROWED process stream locks it per call just the same
